@@ -1,2 +1,428 @@
-(* Property C03 (placeholder while the model/harness are brought up; theorems follow). *)
-From Coq Require Import List.
+(* Property C03 — the scanner's best hit (Scanner::max, the Iterator::max override) is a
+   maximum-scoring position that meets the threshold, whatever the block size and
+   however many hits were consumed with next() beforehand.  Only the property theorems
+   (closed by lemmas of MaxProofs), statement pins and non-vacuity examples.
+
+   The theorems are about the model of Scanner::{next, max} in ScanModel.v (scan.rs as
+   repaired: the first candidate is tested against the threshold, pruning uses
+   scale(score of the best hit)), for EVERY instance of what the scanner calls (see
+   C02.v).  Hypotheses, all explicit:
+     order      the comparisons >=, >, == of the score type are those of a total preorder
+                on non-NaN values (IEEE 754; proved for binary32 in F32Order.v)
+     layout     score_position is defined on the Lm valid positions; the u8 block scores of
+                rows a..e hold the byte score of position c*R + a + r in cell (r, c)
+     C08        conservative, for the bounds max() derives (t = the threshold, t = the score
+                of a position): score i >= t  ->  scale t <= byte score of i
+     monotone   score i >= thr -> scale thr <= scale (score i)
+                (all three are finitely checkable on an instance, see the examples)
+   "max_after k" is: fresh scanner, k calls of next() (stopping at None), then max(). *)
+From Coq Require Import List Arith Bool Lia.
+From LMBase Require Import Res ListX.
+From Coq Require Import ZArith.
+From LMBase Require Import IEEE.
+From LMScan Require Import ScanModel ScanLemmas ScanProofs MaxProofs ScanCheck CheckProofs ScanConcrete F32Order ConcreteProofs.
+Import ListNotations.
+
+(* (1) The general statement: max() after any k calls of next().  Y = the hits consumed
+   by those calls, s = the scanner state they leave.  Nothing panics or runs out of fuel;
+   the answer is None exactly when no qualifying position remains unconsumed; otherwise
+   it is an unconsumed qualifying position p with its exact score, that score is >= the
+   score of every unconsumed qualifying position (hence of every unconsumed position
+   whose score is not NaN); and when no hit was buffered at the time of the call, p is
+   the largest index among the unconsumed positions attaining that maximum. *)
+Theorem C03_max_after_prefix :
+  forall (T : Type) (geb gtb eqb : T -> T -> bool) (is_nan : T -> bool) (scale : T -> nat)
+         (score_position : nat -> res T) (score_rows : nat -> nat -> res dmatrix)
+         (R Lm B : nat) (thr : T) (C : nat) (score : nat -> T) (dscore : nat -> nat),
+    (forall x y, geb x y = true -> is_nan x = false /\ is_nan y = false) ->
+    (forall x, is_nan x = false -> geb x x = true) ->
+    (forall x y, is_nan x = false -> is_nan y = false -> geb x y = true \/ geb y x = true) ->
+    (forall x y z, geb x y = true -> geb y z = true -> geb x z = true) ->
+    (forall x y, gtb x y = geb x y && negb (geb y x)) ->
+    (forall x y, eqb x y = geb x y && geb y x) ->
+    1 <= B ->
+    Lm <= R * C ->
+    (forall i, i < Lm -> score_position i = Ok (score i)) ->
+    (forall a e, a <= e -> e <= R -> score_rows a e = Ok (block_spec R Lm C dscore a e)) ->
+    (forall i, i < Lm -> geb (score i) thr = true -> scale thr <= dscore i) ->
+    (forall i j, i < Lm -> j < Lm -> geb (score i) (score j) = true -> scale (score j) <= dscore i) ->
+    (forall i, i < Lm -> geb (score i) thr = true -> scale thr <= scale (score i)) ->
+    forall k : nat,
+    exists (Y : list (nat * T)) (s : st) (r : option (nat * T)),
+      take_k geb is_nan scale score_position score_rows R Lm B thr k init = Ok (Y, s) /\
+      smax geb gtb eqb is_nan scale score_position score_rows R Lm B thr s = Ok r /\
+      max_after geb gtb eqb is_nan scale score_position score_rows R Lm B thr k = Ok r /\
+      match r with
+      | None =>
+          forall i, i < Lm -> geb (score i) thr = true -> In i (map fst Y)
+      | Some (p, x) =>
+          (p < Lm /\ geb (score p) thr = true /\ ~ In p (map fst Y)) /\
+          x = score p /\
+          (forall i, i < Lm -> ~ In i (map fst Y) -> is_nan (score i) = false -> geb x (score i) = true) /\
+          (hits s = [] ->
+           forall i, i < Lm -> ~ In i (map fst Y) -> eqb (score i) x = true -> i <= p)
+      end.
+Proof.
+  intros T geb gtb eqb is_nan scale score_position score_rows R Lm B thr C score dscore
+         ge_nan ge_refl ge_total ge_trans gt_def eq_def HB HLm Hpos Hrows Hcons Hconsp Hmono k.
+  destruct (max_after_prefix_run geb gtb eqb is_nan scale score_position score_rows R Lm B thr C score dscore
+              ge_nan ge_refl ge_total ge_trans gt_def eq_def HB HLm Hpos Hrows Hcons Hconsp Hmono k)
+    as (Y & s & r & Ht & Hs & Hp).
+  exists Y, s, r. split; [exact Ht|]. split; [exact Hs|]. split.
+  { unfold max_after. rewrite Ht. exact Hs. }
+  destruct r as [[p x]|].
+  - pose proof (max_post_all geb eqb is_nan Lm thr score ge_nan ge_total ge_trans Y _ p x Hp) as Hall.
+    destruct Hp as (A & Hx & D & E). split; [|split; [exact Hx|split]].
+    + destruct A as ((A1 & A2) & A3). auto.
+    + intros i Hi HnY Hn. apply Hall; auto.
+    + intros Hnb i Hi HnY He. apply (E Hnb); auto.
+      split; auto. split; auto.
+      rewrite eq_def in He. apply andb_prop in He. destruct He as (He & _).
+      destruct A as ((_ & A2) & _). rewrite Hx in He. apply (ge_trans _ _ _ He A2).
+  - intros i Hi Hg. destruct (in_dec Nat.eq_dec i (map fst Y)) as [Hin|Hnin]; auto.
+    exfalso. apply (Hp i). split; auto. split; auto.
+Qed.
+
+(* (2) max() on a fresh scanner returns None exactly when no position meets the threshold *)
+Theorem C03_max_none_iff :
+  forall (T : Type) (geb gtb eqb : T -> T -> bool) (is_nan : T -> bool) (scale : T -> nat)
+         (score_position : nat -> res T) (score_rows : nat -> nat -> res dmatrix)
+         (R Lm B : nat) (thr : T) (C : nat) (score : nat -> T) (dscore : nat -> nat),
+    (forall x y, geb x y = true -> is_nan x = false /\ is_nan y = false) ->
+    (forall x, is_nan x = false -> geb x x = true) ->
+    (forall x y, is_nan x = false -> is_nan y = false -> geb x y = true \/ geb y x = true) ->
+    (forall x y z, geb x y = true -> geb y z = true -> geb x z = true) ->
+    (forall x y, gtb x y = geb x y && negb (geb y x)) ->
+    (forall x y, eqb x y = geb x y && geb y x) ->
+    1 <= B ->
+    Lm <= R * C ->
+    (forall i, i < Lm -> score_position i = Ok (score i)) ->
+    (forall a e, a <= e -> e <= R -> score_rows a e = Ok (block_spec R Lm C dscore a e)) ->
+    (forall i, i < Lm -> geb (score i) thr = true -> scale thr <= dscore i) ->
+    (forall i j, i < Lm -> j < Lm -> geb (score i) (score j) = true -> scale (score j) <= dscore i) ->
+    (forall i, i < Lm -> geb (score i) thr = true -> scale thr <= scale (score i)) ->
+    exists r,
+      max_after geb gtb eqb is_nan scale score_position score_rows R Lm B thr 0 = Ok r /\
+      (r = None <-> forall i, i < Lm -> geb (score i) thr = false).
+Proof.
+  intros T geb gtb eqb is_nan scale score_position score_rows R Lm B thr C score dscore
+         ge_nan ge_refl ge_total ge_trans gt_def eq_def HB HLm Hpos Hrows Hcons Hconsp Hmono.
+  destruct (max_after_prefix_run geb gtb eqb is_nan scale score_position score_rows R Lm B thr C score dscore
+              ge_nan ge_refl ge_total ge_trans gt_def eq_def HB HLm Hpos Hrows Hcons Hconsp Hmono 0)
+    as (Y & s & r & Ht & Hs & Hp).
+  simpl in Ht. inversion Ht; subst Y s.
+  exists r. split; [unfold max_after; simpl; exact Hs|].
+  rewrite (max_post_none_iff geb eqb Lm thr score [] _ r Hp). split.
+  - intros Hn i Hi. destruct (geb (score i) thr) eqn:Eg; auto.
+    exfalso. apply (Hn i). split; [split; auto|]. simpl. tauto.
+  - intros Hn i ((Hi & Hg) & _). rewrite (Hn i Hi) in Hg. discriminate.
+Qed.
+
+(* (3) otherwise its score is the maximum over all positions, and meets the threshold *)
+Theorem C03_max_is_maximum :
+  forall (T : Type) (geb gtb eqb : T -> T -> bool) (is_nan : T -> bool) (scale : T -> nat)
+         (score_position : nat -> res T) (score_rows : nat -> nat -> res dmatrix)
+         (R Lm B : nat) (thr : T) (C : nat) (score : nat -> T) (dscore : nat -> nat),
+    (forall x y, geb x y = true -> is_nan x = false /\ is_nan y = false) ->
+    (forall x, is_nan x = false -> geb x x = true) ->
+    (forall x y, is_nan x = false -> is_nan y = false -> geb x y = true \/ geb y x = true) ->
+    (forall x y z, geb x y = true -> geb y z = true -> geb x z = true) ->
+    (forall x y, gtb x y = geb x y && negb (geb y x)) ->
+    (forall x y, eqb x y = geb x y && geb y x) ->
+    1 <= B ->
+    Lm <= R * C ->
+    (forall i, i < Lm -> score_position i = Ok (score i)) ->
+    (forall a e, a <= e -> e <= R -> score_rows a e = Ok (block_spec R Lm C dscore a e)) ->
+    (forall i, i < Lm -> geb (score i) thr = true -> scale thr <= dscore i) ->
+    (forall i j, i < Lm -> j < Lm -> geb (score i) (score j) = true -> scale (score j) <= dscore i) ->
+    (forall i, i < Lm -> geb (score i) thr = true -> scale thr <= scale (score i)) ->
+    forall p x,
+      max_after geb gtb eqb is_nan scale score_position score_rows R Lm B thr 0 = Ok (Some (p, x)) ->
+      p < Lm /\ x = score p /\ geb x thr = true /\
+      (forall i, i < Lm -> is_nan (score i) = false -> geb x (score i) = true) /\
+      (forall i, i < Lm -> eqb (score i) x = true -> i <= p).
+Proof.
+  intros T geb gtb eqb is_nan scale score_position score_rows R Lm B thr C score dscore
+         ge_nan ge_refl ge_total ge_trans gt_def eq_def HB HLm Hpos Hrows Hcons Hconsp Hmono p x Hm.
+  destruct (max_after_prefix_run geb gtb eqb is_nan scale score_position score_rows R Lm B thr C score dscore
+              ge_nan ge_refl ge_total ge_trans gt_def eq_def HB HLm Hpos Hrows Hcons Hconsp Hmono 0)
+    as (Y & s & r & Ht & Hs & Hp).
+  simpl in Ht. inversion Ht; subst Y s.
+  unfold max_after in Hm. simpl in Hm. rewrite Hs in Hm. inversion Hm; subst r.
+  pose proof (max_post_all geb eqb is_nan Lm thr score ge_nan ge_total ge_trans [] _ p x Hp) as Hall.
+  destruct Hp as (((A1 & A2) & _) & Hx & D & E).
+  split; [exact A1|]. split; [exact Hx|]. split; [rewrite Hx; exact A2|]. split.
+  - intros i Hi Hn. apply Hall; auto.
+  - intros i Hi He. apply (E eq_refl); auto. split; [split; auto|simpl; tauto].
+    rewrite eq_def in He. apply andb_prop in He. destruct He as (He & _).
+    rewrite Hx in He. apply (ge_trans _ _ _ He A2).
+Qed.
+
+(* (4) the answer of max() on a fresh scanner does not depend on the block size *)
+Theorem C03_max_block_independent :
+  forall (T : Type) (geb gtb eqb : T -> T -> bool) (is_nan : T -> bool) (scale : T -> nat)
+         (score_position : nat -> res T) (score_rows : nat -> nat -> res dmatrix)
+         (R Lm : nat) (thr : T) (C : nat) (score : nat -> T) (dscore : nat -> nat),
+    (forall x y, geb x y = true -> is_nan x = false /\ is_nan y = false) ->
+    (forall x, is_nan x = false -> geb x x = true) ->
+    (forall x y, is_nan x = false -> is_nan y = false -> geb x y = true \/ geb y x = true) ->
+    (forall x y z, geb x y = true -> geb y z = true -> geb x z = true) ->
+    (forall x y, gtb x y = geb x y && negb (geb y x)) ->
+    (forall x y, eqb x y = geb x y && geb y x) ->
+    Lm <= R * C ->
+    (forall i, i < Lm -> score_position i = Ok (score i)) ->
+    (forall a e, a <= e -> e <= R -> score_rows a e = Ok (block_spec R Lm C dscore a e)) ->
+    (forall i, i < Lm -> geb (score i) thr = true -> scale thr <= dscore i) ->
+    (forall i j, i < Lm -> j < Lm -> geb (score i) (score j) = true -> scale (score j) <= dscore i) ->
+    (forall i, i < Lm -> geb (score i) thr = true -> scale thr <= scale (score i)) ->
+    forall B1 B2, 1 <= B1 -> 1 <= B2 ->
+      max_after geb gtb eqb is_nan scale score_position score_rows R Lm B1 thr 0 =
+      max_after geb gtb eqb is_nan scale score_position score_rows R Lm B2 thr 0.
+Proof.
+  intros T geb gtb eqb is_nan scale score_position score_rows R Lm thr C score dscore
+         ge_nan ge_refl ge_total ge_trans gt_def eq_def HLm Hpos Hrows Hcons Hconsp Hmono B1 B2 HB1 HB2.
+  destruct (max_after_prefix_run geb gtb eqb is_nan scale score_position score_rows R Lm B1 thr C score dscore
+              ge_nan ge_refl ge_total ge_trans gt_def eq_def HB1 HLm Hpos Hrows Hcons Hconsp Hmono 0)
+    as (Y1 & s1 & r1 & Ht1 & Hs1 & Hp1).
+  destruct (max_after_prefix_run geb gtb eqb is_nan scale score_position score_rows R Lm B2 thr C score dscore
+              ge_nan ge_refl ge_total ge_trans gt_def eq_def HB2 HLm Hpos Hrows Hcons Hconsp Hmono 0)
+    as (Y2 & s2 & r2 & Ht2 & Hs2 & Hp2).
+  simpl in Ht1, Ht2. inversion Ht1; subst Y1 s1. inversion Ht2; subst Y2 s2.
+  unfold max_after. simpl. rewrite Hs1, Hs2. f_equal.
+  simpl in Hp1, Hp2.
+  assert (Hnil : (@nil (nat * T) = []) <-> True) by tauto.
+  apply (max_post_unique geb eqb R Lm B1 thr C score eq_def HB1 HLm []).
+  - destruct r1 as [[p x]|]; simpl in *; auto.
+    destruct Hp1 as (A & Hx & D & E). repeat split; auto; try apply A.
+  - destruct r2 as [[p x]|]; simpl in *; auto.
+    destruct Hp2 as (A & Hx & D & E). repeat split; auto; try apply A.
+Qed.
+
+(* (5) The executable checker the driver evaluates on the IMPLEMENTATION's observations
+   (scores = score_position at every position, consumed = positions returned by the k
+   next() calls, result = what max() returned; binary32 bit patterns) decides this
+   property: None only if every qualifying position was consumed; otherwise an
+   unconsumed qualifying position with its exact score bits whose score is >= that of
+   every unconsumed qualifying position. *)
+Theorem C03_check_sound :
+  forall (scores : list Z) (thr : Z) (consumed : list Z) (result : option (Z * Z)),
+    check_c03 scores thr consumed result = true ->
+    match result with
+    | None =>
+        forall i s, (0 <= i)%Z -> nth_error scores (Z.to_nat i) = Some s ->
+                    F32.ge (F32.of_bits s) (F32.of_bits thr) = true -> In i consumed
+    | Some (p, x) =>
+        ((0 <= p)%Z /\ nth_error scores (Z.to_nat p) = Some x /\
+         F32.ge (F32.of_bits x) (F32.of_bits thr) = true /\ ~ In p consumed) /\
+        (forall i s, (0 <= i)%Z -> nth_error scores (Z.to_nat i) = Some s ->
+                     F32.ge (F32.of_bits s) (F32.of_bits thr) = true -> ~ In i consumed ->
+                     F32.ge (F32.of_bits x) (F32.of_bits s) = true)
+    end.
+Proof.
+  intros scores thr consumed result H. apply check_c03_sound in H.
+  destruct result as [[p x]|].
+  - destruct H as ((Hq & Hn) & Hd). apply in_qual in Hq. split; [tauto|].
+    intros i s Hi Hs Hg Hc. apply (Hd (i, s)); auto. apply in_qual. auto.
+  - intros i s Hi Hs Hg. apply (H (i, s)). apply in_qual. auto.
+Qed.
+
+(* (6) The concrete binary32 scanner (the extracted text replayed against the
+   implementation, every dispatcher arm): the order hypotheses are theorems about
+   Flocq's comparison (F32Order.v) and the layout hypotheses are discharged for every
+   well-formed input (ConcreteProofs.v); what remains are the two numeric facts about
+   the discretisation (C08), in the finitely checkable form above: conservativeness at
+   the bounds max() derives and monotonicity of scale between thr and a qualifying score. *)
+Theorem C03_concrete_max :
+  forall (K C : nat) (pssm : list (list F32.t)) (sq : list nat) (wrap : nat) (v : cenv)
+         (am : arm) (thr : F32.t) (B : nat),
+    wf_input K C pssm sq wrap ->
+    c_env K C pssm sq wrap = Ok v ->
+    1 <= B ->
+    (forall i, i < ce_Lm v -> F32.ge (cscore v i) thr = true -> ce_scale v thr <= cdscore v i) ->
+    (forall i j, i < ce_Lm v -> j < ce_Lm v -> F32.ge (cscore v i) (cscore v j) = true ->
+                 ce_scale v (cscore v j) <= cdscore v i) ->
+    (forall i, i < ce_Lm v -> F32.ge (cscore v i) thr = true -> ce_scale v thr <= ce_scale v (cscore v i)) ->
+    forall k : nat,
+    exists (Y : list (nat * F32.t)) (r : option (nat * F32.t)),
+      ce_take_max v am thr B k = Ok (Y, Ok r) /\
+      ce_max_after v am thr B k = Ok r /\
+      match r with
+      | None =>
+          forall i, i < ce_Lm v -> F32.ge (cscore v i) thr = true -> In i (map fst Y)
+      | Some (p, x) =>
+          (p < ce_Lm v /\ F32.ge (cscore v p) thr = true /\ ~ In p (map fst Y)) /\
+          x = cscore v p /\
+          (forall i, i < ce_Lm v -> ~ In i (map fst Y) -> F32.is_nan (cscore v i) = false ->
+                     F32.ge x (cscore v i) = true) /\
+          (* on a fresh scanner: the largest index among the maxima *)
+          (k = 0 -> forall i, i < ce_Lm v -> F32.eq (cscore v i) x = true -> i <= p)
+      end.
+Proof.
+  intros K C pssm sq wrap v am thr B Hwf Henv HB Hcons Hconsp Hmono k.
+  pose proof (env_Lm_le K C pssm sq wrap v Hwf Henv) as HLm.
+  destruct (C03_max_after_prefix F32.t F32.ge F32.gt F32.eq F32.is_nan (ce_scale v)
+              (ce_score_position v) (ce_score_rows v am) (ce_R v) (ce_Lm v) B thr (ce_C v)
+              (cscore v) (cdscore v)
+              F32_ge_nan F32_ge_refl F32_ge_total F32_ge_trans F32_gt_def F32_eq_def HB HLm
+              (env_score_position K C pssm sq wrap v Hwf Henv)
+              (env_score_rows K C pssm sq wrap v Hwf Henv am)
+              Hcons Hconsp Hmono k) as (Y & s & r & Ht & Hs & Hm & Hp).
+  exists Y, r. split; [|split; [exact Hm|]].
+  - unfold ce_take_max. rewrite Ht. simpl. rewrite Hs. reflexivity.
+  - destruct r as [[p x]|]; [|exact Hp].
+    destruct Hp as (A & Hx & D & E). split; [exact A|]. split; [exact Hx|]. split; [exact D|].
+    intros Hk i Hi He. subst k. simpl in Ht. inversion Ht; subst Y s.
+    apply (E eq_refl i Hi); auto.
+Qed.
+
+Check C03_max_none_iff :
+  forall (T : Type) (geb gtb eqb : T -> T -> bool) (is_nan : T -> bool) (scale : T -> nat)
+         (score_position : nat -> res T) (score_rows : nat -> nat -> res dmatrix)
+         (R Lm B : nat) (thr : T) (C : nat) (score : nat -> T) (dscore : nat -> nat),
+    (forall x y, geb x y = true -> is_nan x = false /\ is_nan y = false) ->
+    (forall x, is_nan x = false -> geb x x = true) ->
+    (forall x y, is_nan x = false -> is_nan y = false -> geb x y = true \/ geb y x = true) ->
+    (forall x y z, geb x y = true -> geb y z = true -> geb x z = true) ->
+    (forall x y, gtb x y = geb x y && negb (geb y x)) ->
+    (forall x y, eqb x y = geb x y && geb y x) ->
+    1 <= B ->
+    Lm <= R * C ->
+    (forall i, i < Lm -> score_position i = Ok (score i)) ->
+    (forall a e, a <= e -> e <= R -> score_rows a e = Ok (block_spec R Lm C dscore a e)) ->
+    (forall i, i < Lm -> geb (score i) thr = true -> scale thr <= dscore i) ->
+    (forall i j, i < Lm -> j < Lm -> geb (score i) (score j) = true -> scale (score j) <= dscore i) ->
+    (forall i, i < Lm -> geb (score i) thr = true -> scale thr <= scale (score i)) ->
+    exists r,
+      max_after geb gtb eqb is_nan scale score_position score_rows R Lm B thr 0 = Ok r /\
+      (r = None <-> forall i, i < Lm -> geb (score i) thr = false).
+
+Check C03_max_is_maximum :
+  forall (T : Type) (geb gtb eqb : T -> T -> bool) (is_nan : T -> bool) (scale : T -> nat)
+         (score_position : nat -> res T) (score_rows : nat -> nat -> res dmatrix)
+         (R Lm B : nat) (thr : T) (C : nat) (score : nat -> T) (dscore : nat -> nat),
+    (forall x y, geb x y = true -> is_nan x = false /\ is_nan y = false) ->
+    (forall x, is_nan x = false -> geb x x = true) ->
+    (forall x y, is_nan x = false -> is_nan y = false -> geb x y = true \/ geb y x = true) ->
+    (forall x y z, geb x y = true -> geb y z = true -> geb x z = true) ->
+    (forall x y, gtb x y = geb x y && negb (geb y x)) ->
+    (forall x y, eqb x y = geb x y && geb y x) ->
+    1 <= B ->
+    Lm <= R * C ->
+    (forall i, i < Lm -> score_position i = Ok (score i)) ->
+    (forall a e, a <= e -> e <= R -> score_rows a e = Ok (block_spec R Lm C dscore a e)) ->
+    (forall i, i < Lm -> geb (score i) thr = true -> scale thr <= dscore i) ->
+    (forall i j, i < Lm -> j < Lm -> geb (score i) (score j) = true -> scale (score j) <= dscore i) ->
+    (forall i, i < Lm -> geb (score i) thr = true -> scale thr <= scale (score i)) ->
+    forall p x,
+      max_after geb gtb eqb is_nan scale score_position score_rows R Lm B thr 0 = Ok (Some (p, x)) ->
+      p < Lm /\ x = score p /\ geb x thr = true /\
+      (forall i, i < Lm -> is_nan (score i) = false -> geb x (score i) = true) /\
+      (forall i, i < Lm -> eqb (score i) x = true -> i <= p).
+
+(* ---------- non-vacuity ---------- *)
+
+(* The toy instance of C02.v (natural-number scores, R = 4, C = 3, 10 valid positions,
+   byte score = ceil(score / 2), scale = floor(t / 2)): positions 1 and 5 tie at the
+   maximum 9, positions 3 and 9 (score 7) and 7 (score 8) have the same byte score 4. *)
+Module Toy.
+  Definition table : list nat := [5; 9; 2; 7; 6; 9; 1; 8; 3; 7].
+  Definition score (i : nat) : nat := nth i table 0.
+  Definition dscore (i : nat) : nat := (score i + 1) / 2.
+  Definition geb (a b : nat) : bool := b <=? a.
+  Definition gtb (a b : nat) : bool := b <? a.
+  Definition eqb (a b : nat) : bool := a =? b.
+  Definition is_nan (_ : nat) : bool := false.
+  Definition scale (t : nat) : nat := t / 2.
+  Definition Lm := 10.
+  Definition score_position (i : nat) : res nat := if i <? Lm then Ok (score i) else Panic 21.
+  Definition score_rows (a e : nat) : res dmatrix := Ok (block_spec 4 Lm 3 dscore a e).
+  Definition run (B thr k : nat) : res (option (nat * nat)) :=
+    max_after geb gtb eqb is_nan scale score_position score_rows 4 Lm B thr k.
+End Toy.
+
+Example C03_nonvacuous_hyps :
+  (forall x y, Toy.geb x y = true -> Toy.is_nan x = false /\ Toy.is_nan y = false) /\
+  (forall x, Toy.is_nan x = false -> Toy.geb x x = true) /\
+  (forall x y, Toy.is_nan x = false -> Toy.is_nan y = false -> Toy.geb x y = true \/ Toy.geb y x = true) /\
+  (forall x y z, Toy.geb x y = true -> Toy.geb y z = true -> Toy.geb x z = true) /\
+  (forall x y, Toy.gtb x y = Toy.geb x y && negb (Toy.geb y x)) /\
+  (forall x y, Toy.eqb x y = Toy.geb x y && Toy.geb y x) /\
+  Toy.Lm <= 4 * 3 /\
+  (forall i, i < Toy.Lm -> Toy.score_position i = Ok (Toy.score i)) /\
+  (forall a e, a <= e -> e <= 4 -> Toy.score_rows a e = Ok (block_spec 4 Toy.Lm 3 Toy.dscore a e)) /\
+  (forall thr i, i < Toy.Lm -> Toy.geb (Toy.score i) thr = true -> Toy.scale thr <= Toy.dscore i) /\
+  (forall i j, i < Toy.Lm -> j < Toy.Lm -> Toy.geb (Toy.score i) (Toy.score j) = true ->
+               Toy.scale (Toy.score j) <= Toy.dscore i) /\
+  (forall thr i, i < Toy.Lm -> Toy.geb (Toy.score i) thr = true -> Toy.scale thr <= Toy.scale (Toy.score i)).
+Proof.
+  unfold Toy.geb, Toy.gtb, Toy.eqb, Toy.is_nan, Toy.scale, Toy.dscore.
+  split; [intros x y _; auto|].
+  split; [intros x _; apply Nat.leb_refl|].
+  split; [intros x y _ _; destruct (Nat.le_ge_cases x y); [right|left]; now apply Nat.leb_le|].
+  split; [intros x y z H H0; apply Nat.leb_le in H, H0; apply Nat.leb_le; lia|].
+  split; [intros x y; destruct (Nat.ltb_spec y x), (Nat.leb_spec y x), (Nat.leb_spec x y); simpl; auto; lia|].
+  split; [intros x y; destruct (Nat.eqb_spec x y), (Nat.leb_spec y x), (Nat.leb_spec x y); simpl; auto; lia|].
+  split; [unfold Toy.Lm; lia|].
+  split; [intros i Hi; unfold Toy.score_position; apply Nat.ltb_lt in Hi; now rewrite Hi|].
+  split; [intros a e _ _; reflexivity|].
+  split; [intros t i _ Hg; apply Nat.leb_le in Hg; apply Nat.div_le_mono; lia|].
+  split; [intros i j _ _ Hg; apply Nat.leb_le in Hg; apply Nat.div_le_mono; lia|].
+  intros t i _ Hg. apply Nat.leb_le in Hg. apply Nat.div_le_mono; lia.
+Qed.
+
+(* what the model answers: the maximum 9 at the larger of the tied positions for every
+   block size; after one or more next() calls the best of what remains (which depends
+   on the block size through the yield order); None above the maximum and when
+   everything was consumed *)
+Example C03_nonvacuous_runs :
+  map (fun B => Toy.run B 7 0) [1; 2; 3; 4; 256] = repeat (Ok (Some (5, 9))) 5 /\
+  Toy.run 2 7 1 = Ok (Some (5, 9)) /\      (* 9 consumed; 5 and 1 still buffered: last wins *)
+  Toy.run 2 7 2 = Ok (Some (1, 9)) /\
+  Toy.run 2 7 3 = Ok (Some (7, 8)) /\
+  Toy.run 256 7 1 = Ok (Some (5, 9)) /\    (* 7 consumed *)
+  Toy.run 256 7 4 = Ok (Some (1, 9)) /\
+  Toy.run 3 7 5 = Ok None /\
+  Toy.run 3 10 0 = Ok None /\
+  Toy.run 3 0 0 = Ok (Some (5, 9)).
+Proof. vm_compute. repeat split; reflexivity. Qed.
+
+(* The concrete binary32 scanner on a real instance (ConcreteProofs.Ex: a 3-column motif
+   with a -inf wildcard column, 40 symbols = 2 striped rows, threshold 1.0): every
+   hypothesis of C03_concrete_max holds (the numeric ones by computation over all
+   positions / pairs of positions), so its conclusion does, for every arm, block size
+   and prefix length. *)
+Example C03_concrete_nonvacuous :
+  forall (am : arm) (B k : nat), 1 <= B ->
+  exists (Y : list (nat * F32.t)) (r : option (nat * F32.t)),
+    ce_take_max Ex.env am Ex.thr B k = Ok (Y, Ok r) /\
+    ce_max_after Ex.env am Ex.thr B k = Ok r /\
+    match r with
+    | None =>
+        forall i, i < ce_Lm Ex.env -> F32.ge (cscore Ex.env i) Ex.thr = true -> In i (map fst Y)
+    | Some (p, x) =>
+        (p < ce_Lm Ex.env /\ F32.ge (cscore Ex.env p) Ex.thr = true /\ ~ In p (map fst Y)) /\
+        x = cscore Ex.env p /\
+        (forall i, i < ce_Lm Ex.env -> ~ In i (map fst Y) -> F32.is_nan (cscore Ex.env i) = false ->
+                   F32.ge x (cscore Ex.env i) = true) /\
+        (k = 0 -> forall i, i < ce_Lm Ex.env -> F32.eq (cscore Ex.env i) x = true -> i <= p)
+    end.
+Proof.
+  intros am B k HB.
+  exact (C03_concrete_max 5 32 Ex.pssm Ex.sq 2 Ex.env am Ex.thr B Ex.wf Ex.env_ok HB
+           Ex.cons_thr Ex.cons_pos Ex.mono_thr k).
+Qed.
+
+(* and what it computes there: the best of 17 qualifying positions is 4.0, attained at
+   positions 0, 20 and 33 (the largest index wins, for every arm and block size); after
+   consuming hits the best of the rest; None above the maximum *)
+Example C03_concrete_runs :
+  map (fun B => option_map (fun h => (fst h, F32.to_bits (snd h)))
+                  (unres None (ce_max_after Ex.env Avx2 Ex.thr B 0))) [1; 2; 256]
+    = [Some (33, 1082130432%Z); Some (33, 1082130432%Z); Some (33, 1082130432%Z)] /\
+  option_map (fun h => (fst h, F32.to_bits (snd h))) (unres None (ce_max_after Ex.env Generic Ex.thr 1 3))
+    = Some (33, 1082130432%Z) /\
+  option_map (fun h => (fst h, F32.to_bits (snd h))) (unres None (ce_max_after Ex.env Sse2 Ex.thr 256 1))
+    = Some (20, 1082130432%Z) /\
+  ce_max_after Ex.env Avx2 (F32.of_bits 1082130433) 1 0 = Ok None /\
+  ce_max_after Ex.env Avx2 Ex.thr 1 17 = Ok None.
+Proof. vm_compute. repeat split; reflexivity. Qed.
